@@ -542,6 +542,10 @@ top:
 		if err != nil {
 			return err
 		}
+		if r == '*' {
+			// "**/" : this asterisk may still be the one before the slash
+			return nil
+		}
 		lexer.state = LexerCommentBlock
 		goto writeRuneToBuffer
 
